@@ -665,3 +665,27 @@ Proof.
     cbv zeta in G.
     destruct (asgi_cond rq) as [inm ims]. destruct (asgi_range rq) as [rg ifr]. exact G.
 Qed.
+
+(* ---------- a small world for the examples of Properties.v ---------- *)
+
+(* C07's example tree below /srv/www: sub/index.html (1), ..name (2), about.html (3); every file
+   modified at 1700000000.5 s and changed 100 s later; a toy standard library *)
+Definition ex_env : senv :=
+  {| se_cwd := lit "/"; se_fs := C07.Proofs.ex_fs;
+     se_meta := fun id => {| fm_content := lit "<p>page " ++ dec id ++ lit "</p>";
+                             fm_mtime := 1700000000500000000; fm_ctime := 1700000100000000000 |};
+     se_fkey := fun t => t;
+     se_sha := fun k sz => lit "e" ++ dec k ++ lit "s" ++ dec sz;
+     se_isec := fun t => (t / 1000000000)%N;
+     se_fmtdate := fun sec => lit "D" ++ dec sec;
+     se_parsedate := fun t => match t with 68%N :: r => Some (Z.of_N (undec r)) | _ => None end;
+     se_ctype := fun _ => lit "text/html";
+     se_disp := fun _ => None;
+     se_boundary := lit "b0undaryb0und" |}.
+
+Definition ex_cfg : scfg := {| sc_dir := C07.Proofs.ex_dir; sc_cacheability := lit "public"; sc_max_age := 600 |}.
+
+Definition ex_request (method path : bytes) (headers : list header) : areq :=
+  {| aq_request := {| rq_method := method; rq_query := lit "a=1"; rq_headers := headers;
+                      rq_client := None; rq_body := [] |};
+     aq_root := lit "/r"; aq_path := path; aq_scheme := lit "http"; aq_server := (lit "testserver", 80%N) |}.
